@@ -8,6 +8,8 @@
 //!   d → `d<f>:<l>:<c>=<stem>@<selection>/<target>,…`   (links in response order) | `err`
 //!   c → `c<f>:<l>:<c>=<label>,…`                       (sorted, duplicates kept)  | `err`
 //!   o → `o<f>=<outline>`                               (documentSymbol of file f)
+//! `W <file index> <d|c|o> <line> <col>` = warm-up: every manager serves these requests (answers discarded) before its
+//! first query — an earlier request about another document must not change what a query answers.
 //! A stem may contain `/` (sub-directory).  The directory is removed afterwards.  Each queried file
 //! gets its own manager (fresh index, nothing analysed yet) that serves all queries on that file.
 use std::path::PathBuf;
@@ -76,6 +78,7 @@ pub fn run(words: &[&str]) -> String {
     let id = words[1];
     let mut files: Vec<(String, String)> = Vec::new();
     let mut queries: Vec<(usize, char, usize, usize)> = Vec::new();
+    let mut warm: Vec<(usize, char, usize, usize)> = Vec::new();
     let mut i = 2;
     while i < words.len() {
         match words[i] {
@@ -86,7 +89,7 @@ pub fn run(words: &[&str]) -> String {
                 files.push((unescape(words[i + 1]), unescape(words[i + 2])));
                 i += 3;
             }
-            "Q" => {
+            "Q" | "W" => {
                 if i + 4 >= words.len() {
                     return "bad-op".into();
                 }
@@ -103,7 +106,11 @@ pub fn run(words: &[&str]) -> String {
                     Ok(x) => x,
                     Err(_) => return "bad-op".into(),
                 };
-                queries.push((f, k, l, c));
+                if words[i] == "W" {
+                    warm.push((f, k, l, c));
+                } else {
+                    queries.push((f, k, l, c));
+                }
                 i += 5;
             }
             _ => return "bad-op".into(),
@@ -153,6 +160,25 @@ pub fn run(words: &[&str]) -> String {
                 Err(_) => return "manager-failed".into(),
             };
             pm.index_files();
+            for (wf, wk, wl, wc) in &warm {
+                if *wf >= uris.len() {
+                    continue;
+                }
+                let mut w = pm.clone();
+                let wuri = uris[*wf].clone();
+                let wpos = Position::new(*wl, *wc);
+                let _ = std::panic::catch_unwind(std::panic::AssertUnwindSafe(|| match wk {
+                    'd' => {
+                        let _ = w.generate_goto_definitions(&wuri, &wpos);
+                    }
+                    'c' => {
+                        let _ = w.generate_completion_proposals(&wuri, &wpos);
+                    }
+                    _ => {
+                        let _ = w.generate_document_symbols(&wuri);
+                    }
+                }));
+            }
             pms.insert(f, pm);
         }
         let mut pmc = pms.get(&f).unwrap().clone(); // handlers run on a clone of the manager (shared services)
